@@ -326,15 +326,21 @@ def counter_loop(b, o, h, body, latches, taint, f):
                 c = core(al)
                 step = None
                 base = None
+                stepkind = None
                 if c[0] == "bin" and c[1] in ("Add", "AddUnchecked"):
                     base, step = c[2], c[3]
-                elif c[0] == "call" and lastseg_(c[1]) in ("checked_add", "saturating_add", "wrapping_add") and len(c[2]) == 2:
+                    stepkind = "add"        # overflow panics (C02/panic-site): it cannot silently stop progressing
+                elif c[0] == "call" and lastseg_(c[1]) == "checked_add" and len(c[2]) == 2:
                     base, step = c[2][0], c[2][1]
+                    stepkind = "checked"    # None leaves the loop (or the function)
+                elif c[0] == "call" and lastseg_(c[1]) == "saturating_add" and len(c[2]) == 2:
+                    base, step = c[2][0], c[2][1]
+                    stepkind = "saturating"  # may stick at MAX: needs a strict comparison or a bound below MAX
                 if base is not None and any(s[0] == "loop" for s in walk(base)) and not any(s[0] == "loop" for s in walk(step)):
                     st_ = core(step)
                     positive = (is_const(st_) and st_[1] > 0) or (not is_const(st_) and T.maxval(st_) is not None) or (st_[0] == "field" and st_[2] == "page_size") or (st_[0] == "call" and lastseg_(st_[1]) in ("size_of", "size_with"))
                     if positive:
-                        incs.append(1)
+                        incs.append(stepkind)
                         bs = strip(base)
                         if bs[0] == "loop":
                             selfs.add(bs[1])
@@ -349,6 +355,12 @@ def counter_loop(b, o, h, body, latches, taint, f):
                 if any(s[0] == "loop" and s[1] in selfs for s in walk(al)):
                     okform = False
             inv = not any(s[0] == "loop" and s[1] in selfs for s in walk(bound))
+            if "saturating" in incs:
+                # var = var.saturating_add(step) stops growing at MAX: `var <= bound` never becomes false when bound can be MAX
+                strict = (a[1] == "Lt" and var is a[2]) or (a[1] == "Gt" and var is a[3])
+                mb = T.maxval(bound)
+                if not strict and not (mb is not None and mb < (1 << 64) - 1):
+                    okform = False
             if okform and incs and inv:
                 return ("ok", "counting loop: %s advances by a loop-invariant positive step towards the loop-invariant bound %s" % (show(v)[:50], show(bound)[:50]))
     return None
